@@ -113,7 +113,10 @@ def fontFromBytes (d : Bytes) : Res Font :=
   if d.size < fontMinLen then .err
   else do
     let magic16 ← rdU16s sFrom d 0
-    if magic16 = psf1Magic then loadPsf1 d
+    if magic16 = psf1Magic then do
+      -- `if data[3] == 0 { return Err(..) }` (regenerated flag: is the guard in the source?)
+      let cs ← rd sFrom d 3
+      if psf1ZeroRejected && cs == 0 then .err else loadPsf1 d
     else do
       let magic32 ← rdU32 sFrom d 0
       if magic32 = psf2Magic then loadPsf2 d
